@@ -19,14 +19,7 @@ MC_SWITCH_ACTIONS = ["MCGetOpt", "MCRewindR", "MCRewindO", "MCDispatch", "MCSetT
 # regular executions (an explicit assumption in the evidence) and its regression script is run as a probe whose outcome
 # is recorded (and printed as KNOWN-FINDING when known_findings.txt lists the id). Remove the id once the library is
 # repaired: the inputs come back and the regression script becomes one of the regular, strictly judged executions.
-OPEN_DEFECTS = {
-    "D1": "aws_cli_optind = 1 (the header's way to start another run) does not clear the hidden 'previous element was an "
-          "unknown option' flag: the first non-option element of the next run is then answered with '?' instead of 0x02",
-    "D2": "an empty-string argv element: aws_cli_getopt_long reads argv[i][1], one byte past the terminator "
-          "(command_line_parser.c:83, heap-buffer-overflow under ASan)",
-    "D3": "a table entry with val == 0 (getopt.h style long-only option): memchr(optstring, 0, strlen + 1) finds the "
-          "terminator and opt_value[1] reads one byte past the optstring (command_line_parser.c:119); \"-\" alone selects it too",
-}
+OPEN_DEFECTS = {}      # D1, D2, D3 were repaired in /repo (known_findings.txt: F25-F27); their inputs are driven and judged strictly
 
 
 def prepare(ctx):
